@@ -670,23 +670,35 @@ func (vfs *MemFS) Rel(basepath, targpath string) (string, error) {
 // Remove removes the named file or (empty) directory.
 // If there is an error, it will be of type *PathError.
 func (vfs *MemFS) Remove(name string) error {
+	for {
+		again, err := vfs.remove(name)
+		if !again {
+			return err
+		}
+	}
+}
+
+// remove makes one attempt to remove name.
+// It returns again = true if the entry has been replaced by another call
+// between the search of name and the moment its parent was locked.
+func (vfs *MemFS) remove(name string) (again bool, err error) {
 	const op = "remove"
 
 	parent, child, pi, err := vfs.searchNode(name, slmLstat)
 	if err != vfs.err.FileExists || child == nil {
-		return &fs.PathError{Op: op, Path: name, Err: err}
+		return false, &fs.PathError{Op: op, Path: name, Err: err}
 	}
 
 	if child == node(parent) {
 		// The root directory can't be removed.
-		return &fs.PathError{Op: op, Path: name, Err: vfs.err.PermDenied}
+		return false, &fs.PathError{Op: op, Path: name, Err: vfs.err.PermDenied}
 	}
 
 	parent.mu.Lock()
 	defer parent.mu.Unlock()
 
 	if !parent.checkPermission(avfs.OpenWrite, vfs.User()) {
-		return &fs.PathError{Op: op, Path: name, Err: vfs.err.PermDenied}
+		return false, &fs.PathError{Op: op, Path: name, Err: vfs.err.PermDenied}
 	}
 
 	child.Lock()
@@ -694,20 +706,20 @@ func (vfs *MemFS) Remove(name string) error {
 
 	if c, ok := child.(*dirNode); ok {
 		if len(c.children) != 0 {
-			return &fs.PathError{Op: op, Path: name, Err: vfs.err.DirNotEmpty}
+			return false, &fs.PathError{Op: op, Path: name, Err: vfs.err.DirNotEmpty}
 		}
 	}
 
 	part := pi.Part()
 	if parent.children[part] != child {
 		// name has been removed or replaced since the search.
-		return &fs.PathError{Op: op, Path: name, Err: vfs.err.NoSuchDir}
+		return true, nil
 	}
 
 	parent.removeChild(part)
 	child.delete()
 
-	return nil
+	return false, nil
 }
 
 // RemoveAll removes path and any children it contains.
@@ -787,33 +799,45 @@ func (vfs *MemFS) removeAll(parent *dirNode) error {
 // OS-specific restrictions may apply when oldpath and newpath are in different directories.
 // If there is an error, it will be of type *LinkError.
 func (vfs *MemFS) Rename(oldpath, newpath string) error {
-	const op = "rename"
-
 	// Renames are serialized (as cross directory renames are in the Linux kernel),
 	// so that the relative position of the two parent directories can't change while they are locked.
 	vfs.renameMu.Lock()
 	defer vfs.renameMu.Unlock()
 
+	for {
+		again, err := vfs.rename(oldpath, newpath)
+		if !again {
+			return err
+		}
+	}
+}
+
+// rename makes one attempt to rename oldpath to newpath.
+// It returns again = true if the directories have been changed by another call
+// between the search of the paths and the moment they were locked.
+func (vfs *MemFS) rename(oldpath, newpath string) (again bool, err error) {
+	const op = "rename"
+
 	oParent, oChild, oPI, oErr := vfs.searchNode(oldpath, slmLstat)
 	if oErr != vfs.err.FileExists {
-		return &os.LinkError{Op: op, Old: oldpath, New: newpath, Err: oErr}
+		return false, &os.LinkError{Op: op, Old: oldpath, New: newpath, Err: oErr}
 	}
 
 	nParent, nChild, nPI, nErr := vfs.searchNode(newpath, slmLstat)
 	if nErr != vfs.err.FileExists && !(vfs.isNotExist(nErr) && nPI.IsLast()) {
-		return &os.LinkError{Op: op, Old: oldpath, New: newpath, Err: nErr}
+		return false, &os.LinkError{Op: op, Old: oldpath, New: newpath, Err: nErr}
 	}
 
 	oPath, nPath := oPI.Path(), nPI.Path()
 	if oPath == nPath {
-		return nil
+		return false, nil
 	}
 
 	sep := string(vfs.PathSeparator())
 
 	// The root directory can't be moved, and a directory can't be moved below itself.
 	if oChild == node(oParent) || strings.HasPrefix(nPath, strings.TrimSuffix(oPath, sep)+sep) {
-		return &os.LinkError{Op: op, Old: oldpath, New: newpath, Err: vfs.err.InvalidArgument}
+		return false, &os.LinkError{Op: op, Old: oldpath, New: newpath, Err: vfs.err.InvalidArgument}
 	}
 
 	// The root directory can't be replaced.
@@ -823,7 +847,7 @@ func (vfs *MemFS) Rename(oldpath, newpath string) error {
 			err = avfs.ErrWinAccessDenied
 		}
 
-		return &os.LinkError{Op: op, Old: oldpath, New: newpath, Err: err}
+		return false, &os.LinkError{Op: op, Old: oldpath, New: newpath, Err: err}
 	}
 
 	// Lock the parent directories, an ancestor before its descendant, like every other function.
@@ -841,19 +865,19 @@ func (vfs *MemFS) Rename(oldpath, newpath string) error {
 	}
 
 	if !oParent.checkPermission(avfs.OpenWrite, vfs.User()) || !nParent.checkPermission(avfs.OpenWrite, vfs.User()) {
-		return &os.LinkError{Op: op, Old: oldpath, New: newpath, Err: vfs.err.PermDenied}
+		return false, &os.LinkError{Op: op, Old: oldpath, New: newpath, Err: vfs.err.PermDenied}
 	}
 
 	// Check that nothing has changed between the search and the locks.
 	oPart, nPart := oPI.Part(), nPI.Part()
 	if oParent.children[oPart] != oChild || (nChild != nil && nParent.children[nPart] != nChild) ||
 		(nChild == nil && nParent.children[nPart] != nil) {
-		return &os.LinkError{Op: op, Old: oldpath, New: newpath, Err: vfs.err.NoSuchFile}
+		return true, nil
 	}
 
 	if nChild == oChild {
 		// oldpath and newpath are hard links to the same file.
-		return nil
+		return false, nil
 	}
 
 	switch oChild.(type) {
@@ -863,7 +887,7 @@ func (vfs *MemFS) Rename(oldpath, newpath string) error {
 				nErr = avfs.ErrWinAccessDenied
 			}
 
-			return &os.LinkError{Op: op, Old: oldpath, New: newpath, Err: nErr}
+			return false, &os.LinkError{Op: op, Old: oldpath, New: newpath, Err: nErr}
 		}
 
 	case *fileNode:
@@ -882,14 +906,14 @@ func (vfs *MemFS) Rename(oldpath, newpath string) error {
 				err = avfs.ErrWinAccessDenied
 			}
 
-			return &os.LinkError{Op: op, Old: oldpath, New: newpath, Err: err}
+			return false, &os.LinkError{Op: op, Old: oldpath, New: newpath, Err: err}
 		}
 	}
 
 	nParent.addChild(nPart, oChild)
 	oParent.removeChild(oPart)
 
-	return nil
+	return false, nil
 }
 
 // SameFile reports whether fi1 and fi2 describe the same file.
